@@ -22,6 +22,7 @@ import (
 	"crypto/x509"
 	"crypto/x509/pkix"
 	"fmt"
+	"io"
 	"math/big"
 	"net"
 	"os"
@@ -86,6 +87,19 @@ type world struct {
 	failSeq     int            // ids of the failing start calls of this life: 50, 51, ...
 	viols       [][2]string    // direct-oracle failures found while the plan ran (key, what); reported by judge
 	abort       bool           // the rest of the plan makes no sense any more
+
+	// input that never reaches a handler
+	replying       map[int]int                  // handler of id is inside WriteMsg: the next write on its connection / to its address is its reply
+	acceptOverride map[int]dns.MsgAcceptAction  // MsgAcceptFunc's verdict for the next message with this id (one shot)
+	tinyOwner      int                          // the connection a message of fewer than 2 octets (no id) was sent on
+	invalidCalls   int                          // calls of MsgInvalidFunc
+	badSent        map[int]int                  // synchronous bad messages sent per connection (tcp)
+	serverWrites   int                          // writes of the server outside a handler reply (FORMERR / NOTIMP answers, TLS records)
+
+	// real crypto/tls over the fake transport: srv.Listener is tls.NewListener(fake listener), every
+	// accepted connection is a real *tls.Conn whose handshake runs inside the server's first read
+	tlsMode bool
+	cw      sync.WaitGroup // client goroutines (TLS handshake + reply reader, senders)
 }
 
 func (w *world) addViol(key, what string) {
@@ -378,13 +392,45 @@ func (w *world) unhold(id int) {
 
 func newWorld(mode string) *world {
 	w := &world{mode: mode, conns: map[int]*fakeConn{}, gates: map[int]chan struct{}{}, cancels: map[int]context.CancelFunc{}, replies: map[int]int{},
-		winArmed: map[int]bool{}, winEntered: map[int]chan struct{}{}, winRelease: map[int]chan struct{}{}, holds: map[string]*holdPoint{}, hijackNext: map[int]string{}}
+		winArmed: map[int]bool{}, winEntered: map[int]chan struct{}{}, winRelease: map[int]chan struct{}{}, holds: map[string]*holdPoint{}, hijackNext: map[int]string{},
+		replying: map[int]int{}, acceptOverride: map[int]dns.MsgAcceptAction{}, badSent: map[int]int{}}
 	w.cond = sync.NewCond(&w.mu)
 	w.srv = &dns.Server{Handler: dns.HandlerFunc(w.handler), NotifyStartedFunc: func() { w.log("n") }}
 	w.srv.DecorateReader = func(r dns.Reader) dns.Reader { return windowReader{w, r} }
 	w.srv.MsgAcceptFunc = func(dh dns.Header) dns.MsgAcceptAction {
 		w.holdAt(fmt.Sprintf("ma.%d", dh.Id), false, w.shutdownSeen)
-		return dns.DefaultMsgAcceptFunc(dh)
+		act := dns.DefaultMsgAcceptFunc(dh)
+		w.mu.Lock()
+		if ov, ok := w.acceptOverride[int(dh.Id)]; ok {
+			act = ov
+			delete(w.acceptOverride, int(dh.Id))
+		}
+		w.mu.Unlock()
+		if act != dns.MsgAccept {
+			// the server is about to drop / reject this message without calling the handler
+			// (logged before the verdict is handed back: the worker still holds the message)
+			w.log(fmt.Sprintf("ig.%d", dh.Id))
+			st["messages_ignored_or_rejected_by_msgacceptfunc"]++
+		}
+		return act
+	}
+	w.srv.MsgInvalidFunc = func(m []byte, err error) {
+		w.mu.Lock()
+		w.invalidCalls++
+		tiny := w.tinyOwner
+		w.cond.Broadcast()
+		w.mu.Unlock()
+		st["msginvalidfunc_calls"]++
+		if w.mode == "udp" && len(m) < 12 {
+			return // a short datagram: ps.<p> was logged when ReadFrom handed it out; it has no worker
+		}
+		// tcp: no complete header; tcp / udp: accepted by MsgAcceptFunc, but the body does not unpack.
+		// serveDNS is about to return without calling the handler.
+		id := tiny
+		if len(m) >= 2 {
+			id = int(m[0])<<8 | int(m[1])
+		}
+		w.log(fmt.Sprintf("ig.%d", id))
 	}
 	w.newTransport()
 	return w
@@ -410,6 +456,7 @@ func (w *world) newLife(name string, base int, plan []string) bool {
 	if !w.callersReturned() {
 		return false
 	}
+	w.clientsWrapUp()
 	w.goroutinesBack(name, base, plan)
 	left := w.leftover()
 	w.mu.Lock()
@@ -418,7 +465,9 @@ func (w *world) newLife(name string, base int, plan []string) bool {
 	w.pastLeft = append(w.pastLeft, left)
 	w.outside = false
 	w.wrap = false
+	w.tlsMode = false
 	w.hijackNext = map[int]string{}
+	w.replying, w.acceptOverride, w.badSent = map[int]int{}, map[int]dns.MsgAcceptAction{}, map[int]int{}
 	w.ev = nil
 	w.conns = map[int]*fakeConn{}
 	w.gates = map[int]chan struct{}{}
@@ -524,7 +573,17 @@ func (w *world) handler(rw dns.ResponseWriter, req *dns.Msg) {
 	if !w.noReply {
 		m := new(dns.Msg)
 		m.SetReply(req)
+		// the next write on this connection / to this address is the handler's reply (rp);
+		// everything else the server writes (its own FORMERR / NOTIMP answers, TLS records) is not
+		w.mu.Lock()
+		w.replying[id]++
+		w.mu.Unlock()
 		rw.WriteMsg(m)
+		w.mu.Lock()
+		if w.replying[id] > 0 {
+			w.replying[id]--
+		}
+		w.mu.Unlock()
 	}
 	if hj == "" {
 		w.log(fmt.Sprintf("hx.%d", id))
